@@ -164,18 +164,8 @@ class LazyViolations:
                      for f in INDEP_FAIL])
 
 
-class LazyCov(dict):
-    def items(self):
-        return {"value_independence_pairs": len(INDEP_SEEN), "value_independence_failures": len(INDEP_FAIL)}.items()
-
-    def __bool__(self):
-        return True
-
-    def keys(self):
-        return ["value_independence_pairs", "value_independence_failures"]
-
-    def __getitem__(self, k):
-        return dict(self.items())[k]
+def lazy_cov():
+    return {"value_independence_pairs": len(INDEP_SEEN), "value_independence_failures": len(INDEP_FAIL)}
 
 
 def check(run: core.Run):
@@ -183,7 +173,7 @@ def check(run: core.Run):
     stmtprop.run_statement_property(
         run, prop="C04", propfile="Props/C04.v", module="Props.C04", theorems=THEOREMS, header=HEADER, cases=cases(run, rng),
         extra_targets=["Ref/ParamEq.v"], what="the parameterised/inline equivalence",
-        extra_violations=LazyViolations(), extra_cov=LazyCov(),
+        extra_violations=LazyViolations(), extra_cov=lazy_cov,
         rule="each statement is rendered by the implementation inline and with a Parameterizer; both texts are lexed by the reference lexer in Coq and walked "
              "token by token (Ref.ParamEq.c04_ok): equal except that the k-th placeholder (dialect style, numbered 1..n) stands where the inline text has the one "
              "literal of the k-th listed value; values must be plain data. Clause-order-sensitive shapes (MSSQL offset/limit, MySQL late ORDER BY/LIMIT on UPDATE, "
